@@ -42,6 +42,21 @@ pub fn reset_trace_counters() {
     TRACE_EDGES.with(|c| c.set(0));
 }
 
+thread_local! {
+    static UPDATE_LOG: std::cell::RefCell<Vec<(u8, u32)>> = std::cell::RefCell::new(Vec::new());
+}
+
+/// `update_node` events on this thread: (b'U', id) just before a node's update closure runs,
+/// (b'C', id) when a visited node is found changed (its dependents are queued).
+pub fn log_update(kind: u8, id: u32) {
+    UPDATE_LOG.with(|l| l.borrow_mut().push((kind, id)));
+}
+
+/// Takes (and clears) the log of this thread.
+pub fn take_update_log() -> Vec<(u8, u32)> {
+    UPDATE_LOG.with(|l| std::mem::take(&mut *l.borrow_mut()))
+}
+
 type SchedHook = Arc<dyn Fn(&'static str) + Send + Sync>;
 
 static SCHED_HOOK: RwLock<Option<SchedHook>> = RwLock::new(None);
